@@ -10,7 +10,7 @@
    Schemas range over ALL values of the datatype Cats/Ast.v (unbounded; also values no CATS text parses to).  The second stage
    takes the expanded schema as its own argument (`sp`, `sp'`); that it is the expansion of the first is used only through
    `consistent After sp` and `confined (carriers s D) sp sp'` (C05: expand_frame). *)
-From Symv Require Import Cats.Validate Cats.ValidateSpec Cats.ValidateProofs.
+From Symv Require Import Cats.Validate Cats.ValidateSpec Cats.ValidateProofs Cats.ValidateProofs2.
 Open Scope string_scope.
 Open Scope list_scope.
 
@@ -134,16 +134,28 @@ Theorem completeness_struct_attribute : forall D sp' st',
   exists es_pre es_post, validate Pre s' = Ok es_pre /\ validate Post sp' = Ok es_post /\ reported s D None (es_pre ++ es_post).
 Proof. exact (fun D sp' st' => completeness_struct_level s s' D sp sp' st' consistent_before consistent_after). Qed.
 
-(* NOT proved at full strength: an initializer whose constant is unknown (in a concrete struct) or of a different type than its
-   target.  Full statement:
+(* an initializer whose constant is unknown (in a concrete struct), or whose constant and target are members whose types PRINT
+   differently (AstValidator compares str(field_type)): `broken_initializer` (Cats/ValidateProofs2.v, fixed text) has these two
+   constructors, BrokenInitializerConstant and BrokenInitializerType.  Reported on D after expansion, nothing outside the carriers.
+   (If the members of st' have a repeated name, the error that names D is the duplicate-member error.) *)
+Theorem completeness_initializer_constant : forall D sp' st',
+  confined [D] s s' -> confined (carriers s D) sp sp' -> initializes_complete sp' = true ->
+  In (DStruct st') sp' -> s_name st' = D -> broken_initializer st' ->
+  exists es_pre es_post, validate Pre s' = Ok es_pre /\ validate Post sp' = Ok es_post /\ reported s D None (es_pre ++ es_post).
+Proof. exact (fun D sp' st' => completeness_initializer s s' D sp sp' st' consistent_before consistent_after). Qed.
+
+(* The statement below (kept with its old name) is the frame half only.  The formulation that was announced here as the full one,
+   with `same_type t1 t2 = false` (ValidateSpec) as the type-mismatch premise:
      forall D sp' st' attrs a target value rest,
        confined [D] s s' -> confined (carriers s D) sp sp' -> initializes_complete sp' = true -> In (DStruct st') sp' -> s_name st' = D ->
        s_attrs st' = Some attrs -> In a attrs -> at_name a = "initializes" -> at_values a = AvStr target :: AvStr value :: rest ->
        (   (concrete st' = true /\ ~ In value (map fst (members (s_fields st'))))
         \/ (exists t1 t2, In (target, t1) (members (s_fields st')) /\ In (value, t2) (members (s_fields st')) /\ same_type t1 t2 = false)) ->
        exists es_pre es_post, validate Pre s' = Ok es_pre /\ validate Post sp' = Ok es_post /\ reported s D None (es_pre ++ es_post).
-   Proved: neither stage crashes and nothing is reported outside the carriers (the existence of the error is exercised by the
-   correspondence: kinds initializes-value-unknown / initializes-type-mismatch). *)
+   is FALSE of the model and of the code for values of the datatype that no CATS text parses to (a named type whose name is the text
+   of an integer type, integers of a size other than 1/2/4/8): initializer_same_type_refuted below.  It holds with the printed-form
+   premise (completeness_initializer_constant) and, through plain_types_differ_in_text, with same_type = false for standard integers
+   and named types whose name is not the text of an integer type (what the parser produces for constants and their targets). *)
 Theorem completeness_initializer_constant_partial : forall D sp',
   confined [D] s s' -> confined (carriers s D) sp sp' -> initializes_complete sp' = true ->
   exists es_pre es_post,
@@ -164,7 +176,71 @@ Print Assumptions completeness_duplicate_member.
 Print Assumptions completeness_duplicate_enum_value.
 Print Assumptions completeness_any_member_site.
 Print Assumptions completeness_struct_attribute.
+Print Assumptions completeness_initializer_constant.
 Print Assumptions completeness_initializer_constant_partial.
+
+(* different types print differently, for standard integers and named types whose name is not the text of an integer type *)
+Theorem plain_types_differ_in_text : forall t1 t2,
+  plain_type t1 = true -> plain_type t2 = true -> same_type t1 t2 = false -> str_ftype t1 <> str_ftype t2.
+Proof. exact ValidateProofs2.plain_types_differ_in_text. Qed.
+Print Assumptions plain_types_differ_in_text.
+
+(* hence the type-mismatch case in the terms of ValidateSpec.same_type *)
+Theorem broken_initializer_of_same_type : forall st attrs a target value rest t1 t2,
+  s_attrs st = Some attrs -> In a attrs -> at_name a = "initializes" -> at_values a = AvStr target :: AvStr value :: rest ->
+  In (target, t1) (members (s_fields st)) -> In (value, t2) (members (s_fields st)) ->
+  plain_type t1 = true -> plain_type t2 = true -> same_type t1 t2 = false -> broken_initializer st.
+Proof.
+  exact (fun st attrs a target value rest t1 t2 Ha Hin Hn Hv H1 H2 P1 P2 Hs =>
+    BrokenInitializerType st attrs a target value rest t1 t2 Ha Hin Hn Hv H1 H2 (ValidateProofs2.plain_types_differ_in_text t1 t2 P1 P2 Hs)).
+Qed.
+Print Assumptions broken_initializer_of_same_type.
+
+(* ... and an array-typed target never passes for an integer or (plainly) named constant *)
+Theorem broken_initializer_of_array_target : forall st attrs a target value rest x t2,
+  s_attrs st = Some attrs -> In a attrs -> at_name a = "initializes" -> at_values a = AvStr target :: AvStr value :: rest ->
+  In (target, FArray x) (members (s_fields st)) -> In (value, t2) (members (s_fields st)) -> not_array_text t2 = true -> broken_initializer st.
+Proof.
+  exact (fun st attrs a target value rest x t2 Ha Hin Hn Hv H1 H2 P =>
+    BrokenInitializerType st attrs a target value rest (FArray x) t2 Ha Hin Hn Hv H1 H2 (ValidateProofs2.array_differs_in_text x t2 P)).
+Qed.
+Print Assumptions broken_initializer_of_array_target.
+
+(* REFUTED for arbitrary values of the datatype: target `a : uint8`, constant `b : <named type "uint8">` (an alias named like the
+   integer type; the grammar has no such name).  same_type says the types differ, both print as "uint8", and neither stage reports
+   anything -- in the model and in AstValidator alike (hand-built ast objects; cross-checked). *)
+Definition init_witness (attrs : option (list attribute)) : list decl := [
+  DAlias "uint8" (LInt {| it_unsigned := true; it_size := 1; it_sizeref := None |}) None;
+  DStruct {| s_name := "S"; s_disp := SdNone;
+             s_fields := [Field "a" (FInt {| it_unsigned := true; it_size := 1; it_sizeref := None |}) VNone DispNone None None;
+                          Field "b" (FName "uint8") (VNum 0) DispConst None None];
+             s_factory_type := None; s_attrs := attrs; s_comment := None; s_requires_unaligned := false |}].
+(* the negation of the announced statement, literally: all its premises, and nothing is reported *)
+Theorem initializer_same_type_refuted :
+  exists s sp s' D sp' st' attrs a target value rest t1 t2,
+    consistent Before s = true /\ consistent After sp = true
+    /\ confined [D] s s' /\ confined (carriers s D) sp sp' /\ initializes_complete sp' = true /\ In (DStruct st') sp' /\ s_name st' = D
+    /\ s_attrs st' = Some attrs /\ In a attrs /\ at_name a = "initializes" /\ at_values a = AvStr target :: AvStr value :: rest
+    /\ In (target, t1) (members (s_fields st')) /\ In (value, t2) (members (s_fields st')) /\ same_type t1 t2 = false
+    /\ validate Pre s' = Ok [] /\ validate Post sp' = Ok []
+    /\ ~ (exists es_pre es_post, validate Pre s' = Ok es_pre /\ validate Post sp' = Ok es_post /\ reported s D None (es_pre ++ es_post)).
+Proof.
+  exists (init_witness None), (init_witness None), (init_witness None), "S",
+         (init_witness (Some [{| at_name := "initializes"; at_values := [AvStr "a"; AvStr "b"] |}])).
+  eexists. eexists. eexists. exists "a", "b", []. eexists. eexists.
+  split; [vm_compute; reflexivity|]. split; [vm_compute; reflexivity|].
+  split; [unfold confined, init_witness; repeat (apply Forall2_cons; [left; reflexivity|]); apply Forall2_nil|].
+  split.
+  { unfold confined, init_witness. apply Forall2_cons; [left; reflexivity|]. apply Forall2_cons; [|apply Forall2_nil].
+    right. split; [vm_compute; auto|]. cbn [same_interface]. repeat split; try reflexivity. intros x H; exact H. }
+  split; [vm_compute; reflexivity|]. split; [right; left; reflexivity|]. split; [reflexivity|]. split; [reflexivity|].
+  split; [left; reflexivity|]. split; [reflexivity|]. split; [reflexivity|].
+  split; [left; reflexivity|]. split; [right; left; reflexivity|]. split; [reflexivity|].
+  split; [vm_compute; reflexivity|]. split; [vm_compute; reflexivity|].
+  intros (es_pre & es_post & H1 & H2 & (e & He & _) & _).
+  vm_compute in H1. vm_compute in H2. injection H1 as <-. injection H2 as <-. destruct He.
+Qed.
+Print Assumptions initializer_same_type_refuted.
 
 (* the declaring struct is one of its carriers *)
 Theorem declaring_struct_is_a_carrier : forall s D, In D (carriers s D).
@@ -357,3 +433,43 @@ Proof.
   unfold complete_for in H. apply H. intros sp' E. injection E as <-. exact Hpost.
 Qed.
 Print Assumptions completeness_premises_nonvacuous.
+
+(* ---- non-vacuity of completeness_initializer_constant / broken_initializer_of_same_type on the example schema: Foo (concrete) with
+        @initializes(en, ZZ) -- ZZ is no member -- and with @initializes(cnt, KK) -- cnt is uint8, KK is of the enumeration En; all
+        premises hold together and both are reported on Foo ---- *)
+Definition ex_bad_init_const : list decl := with_foo true 1 (fld "cnt" (FInt u8)) (Some [att "initializes" [AvStr "en"; AvStr "ZZ"]]).
+Definition ex_bad_init_type : list decl := with_foo true 1 (fld "cnt" (FInt u8)) (Some [att "initializes" [AvStr "cnt"; AvStr "KK"]]).
+
+Example completeness_initializer_nonvacuous :
+  consistent Before ex = true /\ consistent After ex_post = true /\ confined ["Foo"] ex ex
+  /\ (confined (carriers ex "Foo") ex_post ex_bad_init_const /\ initializes_complete ex_bad_init_const = true
+      /\ exists st', In (DStruct st') ex_bad_init_const /\ s_name st' = "Foo" /\ broken_initializer st')
+  /\ (confined (carriers ex "Foo") ex_post ex_bad_init_type /\ initializes_complete ex_bad_init_type = true
+      /\ exists st', In (DStruct st') ex_bad_init_type /\ s_name st' = "Foo" /\ broken_initializer st')
+  /\ (plain_type (FInt u8) = true /\ plain_type (FName "En") = true /\ same_type (FInt u8) (FName "En") = false)
+  /\ validate Post ex_bad_init_const = Ok [err MUnknownInit ["ZZ"] "Foo" []]
+  /\ validate Post ex_bad_init_type = Ok [err MInitType ["cnt"; "KK"] "Foo" []].
+Proof.
+  split; [vm_compute; reflexivity|]. split; [vm_compute; reflexivity|].
+  split; [unfold confined, ex, example; repeat (apply Forall2_cons; [left; reflexivity|]); apply Forall2_nil|].
+  assert (Hconf : forall attrs, find_attr attrs "is_size_implicit" = None ->
+            confined (carriers ex "Foo") ex_post (with_foo true 1 (fld "cnt" (FInt u8)) attrs)).
+  { intros attrs Hattrs. unfold confined, ex_post, with_foo, example. cbn [firstn app].
+    repeat (apply Forall2_cons; [left; reflexivity|]).
+    apply Forall2_cons; [|apply Forall2_nil]. right. split; [vm_compute; auto|].
+    cbn [same_interface]. split; [reflexivity|]. split; [reflexivity|]. split; [unfold mkstruct; cbn [s_attrs]; rewrite Hattrs; reflexivity|].
+    vm_compute. intros a H; exact H. }
+  split.
+  { split; [apply Hconf; reflexivity|]. split; [vm_compute; reflexivity|].
+    eexists. split; [unfold ex_bad_init_const, with_foo; apply in_or_app; right; left; reflexivity|]. split; [reflexivity|].
+    apply (BrokenInitializerConstant _ [att "initializes" [AvStr "en"; AvStr "ZZ"]] (att "initializes" [AvStr "en"; AvStr "ZZ"]) "en" "ZZ" []);
+      [reflexivity|left; reflexivity|reflexivity|reflexivity|reflexivity|].
+    vm_compute. intuition discriminate. }
+  split.
+  { split; [apply Hconf; reflexivity|]. split; [vm_compute; reflexivity|].
+    eexists. split; [unfold ex_bad_init_type, with_foo; apply in_or_app; right; left; reflexivity|]. split; [reflexivity|].
+    apply (broken_initializer_of_same_type _ [att "initializes" [AvStr "cnt"; AvStr "KK"]] (att "initializes" [AvStr "cnt"; AvStr "KK"]) "cnt" "KK" [] (FInt u8) (FName "En"));
+      try reflexivity; [left; reflexivity|vm_compute; auto 20|vm_compute; auto 20]. }
+  vm_compute. repeat split; reflexivity.
+Qed.
+Print Assumptions completeness_initializer_nonvacuous.
